@@ -329,7 +329,7 @@ WILD = [
     ('{', '}'), ('{}', '{0}'), ('a}b', '{key}'), ('group{0}', '{0!r:>{1}}'),
     ('%s', '%(name)s'), ('%d%%', '100%'),
     ('a\nb', 'a\tb'), ("it's", 'say "x"'), ('back\\slash', 'dollar$name'), (' lead', 'trail '),
-    ('class', 'lambda'), ('x' * 300, 'x' * 301), ('\U0001f600', '\u4e2d\u6587'), ('a.b', 'a-b'), ('a[0]', 'a(0)'),
+    ('class', 'lambda'), ('x' * 300, 'x' * 301), ('__wolf__', '__w__'), ('____', '__all__'), ('__path__', '__file_'), ('\U0001f600', '\u4e2d\u6587'), ('a.b', 'a-b'), ('a[0]', 'a(0)'),
 ]
 
 
@@ -415,6 +415,39 @@ def many_tags_case(case):
     if target != 'G' and len(lib) != n + 1:
         raise Violation(f'{n} tags: len', expected=n + 1, observed=len(lib))
     return n
+
+
+def subclass_case(case):
+    """A library that is an instance of a TagLibrary SUBCLASS with a method and a class attribute of its own: a tag named
+    like one of them is either refused without a trace, or accepted without breaking the subclass's own operations -
+    and everything else about the library holds as usual."""
+    mod = load_module()
+
+    class Guild(mod.TagLibrary):
+        kind = 'guild'
+
+        def predators(self):
+            return ['wolf']
+
+    lib = Guild()
+    acc = []
+    for name in case['names']:
+        try:
+            lib.add_tag(name)
+        except Exception:      # noqa - refused: judged by the read-back
+            continue
+        acc.append(name)
+    ok_own = True
+    try:
+        ok_own = Guild.predators(lib) == ['wolf'] and lib.predators() == ['wolf'] and lib.kind == 'guild'
+    except Exception:      # noqa
+        ok_own = False
+    if not ok_own:
+        raise Violation(f'after add_tag of {case["names"]} (accepted: {acc}) on a TagLibrary subclass its own method / '
+                        f'attribute no longer works: a tag shadows it', expected='refused, or harmless', observed=acc)
+    look = sorted(set(case['names']) | {'NONE', UNKNOWN})
+    judge(observe_lib(lib, look, False), acc, False, f'subclass library after add_tag of {case["names"]}')
+    return tuple(acc)
 
 
 def wild_cases():
@@ -572,6 +605,15 @@ def run(ctx):
             ctx.report(case, v)
             return
     ctx.leg('wild_names', cases=nw, pairs=len(WILD))
+    for names in (['predators'], ['kind'], ['A', 'predators', 'B'], ['kind', 'predators'], ['prey', 'itemize', 'predators']):
+        case = {'leg': 'subclass', 'names': names}
+        ctx.traces += 1
+        try:
+            ctx.outcome(('subclass',) + hbfs._guard(subclass_case, case))
+        except Violation as v:
+            ctx.report(case, v)
+            return
+    ctx.leg('subclass_library', cases=5)
     for n in ((300,) if ctx.small else (3000,) if ctx.tier == 'quick' else (3000, 40000)):
         for target in ('L1', 'G'):
             case = {'leg': 'many_tags', 'n': n, 'target': target}
@@ -607,6 +649,9 @@ def run(ctx):
 def replay(case):
     if case['leg'] == 'wild':
         hbfs._guard(wild_case, case)
+        return
+    if case['leg'] == 'subclass':
+        hbfs._guard(subclass_case, case)
         return
     if case['leg'] == 'many_tags':
         hbfs._guard(many_tags_case, case)
